@@ -70,6 +70,7 @@ def run(ck, fb):
     r11b(ck, fb)
     r11c(ck, fb)
     r11d(ck, fb)
+    r11e(ck, fb)
 
 
 def r11a(ck, fb):
@@ -85,8 +86,8 @@ def r11a(ck, fb):
             continue
         ck.analysed(b)
         n += 1
-        ii = util.mut_calls_on_field(b, 'namespace_index', r'NamespaceIndex::insert_service$')
-        ri = util.mut_calls_on_field(b, 'namespace_index', r'NamespaceIndex::remove_service$')
+        ii = util.mut_calls_on_field(b, 'namespace_index', r'NamespaceIndex::insert_service$', deep=1)
+        ri = util.mut_calls_on_field(b, 'namespace_index', r'NamespaceIndex::remove_service$', deep=1)
         for s in ins:
             ok = any(cfg.dominates_blocks(b, {x.bb}, s.bb) or cfg.must_pass_before_return(b, s.bb, {x.bb}) for x in ii)
             ck.require(ok, 'R11a', '%s:insert<->insert_service' % b.name, s.where(), 'a service is created without being listed in the namespace/group index')
@@ -249,3 +250,85 @@ def r11d(ck, fb):
         ok = len(hsz) == 1 and delta_of(pv, hsz[0][0], hsz[0][1], 'h') == 1 and cond_on(pv, hsz[0][0], field_cond('healthy', False)) and cond_on(pv, hsz[0][0], field_cond('ephemeral', False))
         ck.require(ok, 'R11d', 'perpetual_valid:+1-under-!healthy&&!ephemeral', pv.where(), 'marking a persistent instance healthy does not increment exactly when it was unhealthy and persistent')
         ck.require(len(util.mut_calls_on_field(pv, 'instances', r'HashMap::<K, V, S, A>::insert$')) == 2, 'R11d', 'perpetual_valid:reinserts', pv.where(), 'instance not re-inserted on both paths')
+
+
+SINK_LOCALS = {'mark_add_perpetual_instance', 'mark_remove_perpetual_instance', 'replace_old_client_id', 'perpetual_changed'}
+
+
+def _instance_fields_of_desc(b, d, inst, depth=0):
+    """fields of local `inst` that a discriminant / operand description reads"""
+    out = set()
+    if depth > 5:
+        return out
+    k = d['k']
+    if k == 'place':
+        r = d['root']
+        if r.get('k') == 'arg' and r.get('l') == inst and d['fields']:
+            out.add(d['fields'][0])
+        elif r.get('k') == 'call':
+            out |= _instance_fields_of_desc(b, r, inst, depth + 1)
+    elif k == 'call':
+        for a in d['term']['args']:
+            out |= _instance_fields_of_desc(b, cfg.describe_operand(b, a), inst, depth + 1)
+    elif k == 'bin':
+        for a in (d['a'], d['b']):
+            out |= _instance_fields_of_desc(b, cfg.describe_operand(b, a), inst, depth + 1)
+    elif k == 'un':
+        out |= _instance_fields_of_desc(b, cfg.describe_operand(b, d['a']), inst, depth + 1)
+    return out
+
+
+def r11e(ck, fb):
+    ck.rule('R11e', 'decisions use the final value: in Service::update_instance the bookkeeping decisions (locals mark_add_perpetual_instance, '
+                    'mark_remove_perpetual_instance, replace_old_client_id, perpetual_changed) are control- or data-dependent only on fields of the '
+                    'incoming `instance` that are not written (assignment or &mut borrow) later in the same call')
+    up = ck.body(SV + 'update_instance', 'R11e')
+    if not up:
+        return
+    ls = [l for l in range(1, up.argc + 1) if up.local_name(l) == 'instance']
+    ck.require(len(ls) == 1, 'R11e', 'update_instance:instance-param', up.where(), 'parameter `instance` not found')
+    if len(ls) != 1:
+        return
+    inst = ls[0]
+    reads, writes = util.field_accesses_of_local(up, inst)
+    ck.floor('R11e', 'writes to fields of the incoming instance', len(writes), 8)
+    sinks = [l for l in range(len(up.locals)) if up.local_name(l) in SINK_LOCALS]
+    ck.floor('R11e', 'decision locals', len(sinks), 4)
+    n = 0
+    bad = {}
+    from rn.facts import rv_operands, op_place, pl_local, pl_proj
+
+    def deps_of_def(kind, bb, node, depth, seen):
+        """(field of instance, block where read) the value defined here depends on, by control (guarding switches) or data"""
+        deps = []
+        for (src, dst, lab, term) in cfg.dominating_edges(up, bb):
+            d = cfg.describe_operand(up, term['discr'])
+            while d['k'] == 'un':
+                d = cfg.describe_operand(up, d['a'])
+            for f in _instance_fields_of_desc(up, d, inst):
+                deps.append((f, src))
+        if kind == 'stmt':
+            for o in rv_operands(node['rv']):
+                for f in _instance_fields_of_desc(up, cfg.describe_operand(up, o), inst):
+                    deps.append((f, bb))
+                p = op_place(o)
+                if p is not None and not pl_proj(p) and depth < 4:
+                    t = pl_local(p)
+                    if t not in seen and len(up.defs.get(t, [])) > 1 and not up.local_name(t):
+                        seen.add(t)
+                        for (k2, b2, j2, n2) in up.defs.get(t, []):
+                            deps += deps_of_def(k2, b2, n2, depth + 1, seen)
+        return deps
+    for l in sinks:
+        for kind, bb, j, node in up.defs.get(l, []):
+            n += 1
+            for (f, rb) in deps_of_def(kind, bb, node, 0, set()):
+                for (g, wb, wk) in writes:
+                    if g == f and wb != rb and wb in cfg.reach_from(up, [rb]):
+                        bad.setdefault((up.local_name(l), f), (rb, wb))
+    for (nm, f), (rb, wb) in sorted(bad.items()):
+        ck.bad('R11e', 'update_instance:%s:stale-%s' % (nm, f), up.where(rb),
+               'the decision `%s` depends on instance.%s as read at line %s, but instance.%s is overwritten later in the same call (line %s): the '
+               'bookkeeping follows a value that is not the one finally stored' % (nm, f, up.blocks[rb]['t'].get('ln'), f, up.blocks[wb]['t'].get('ln')))
+    if not bad:
+        ck.ok('R11e', 'update_instance:decisions-use-final-values', up.where(), '%d decision assignments examined' % n)
